@@ -749,3 +749,43 @@ func VAelPtrOps(n int, ops [][]int) (head int, prev, next []int) {
 	}
 	return
 }
+
+// VMinimaExec is what one execution saw of the local minima: the list after reset (bottom points), the
+// scanline list after reset and the local minima in the order the sweep's outer loop popped them.
+type VMinimaExec struct {
+	Minima  Path64
+	Scan    []int64
+	Visited Path64
+}
+
+// VMinimaOps replays a history on one engine: a non-nil entry of adds is an AddPaths call (closed subject
+// paths), a nil entry an execution reduced to its bookkeeping of local minima: the real reset, then the
+// outer loop of executeInternal (popScanline, hasLocMinAtY, popLocalMinima) without the sweep, then the
+// real clearSolutionOnly.
+func VMinimaOps(adds []Paths64) (execs []VMinimaExec) {
+	c := newClipperBase()
+	for _, paths := range adds {
+		if paths != nil {
+			c.baseAddPaths(paths, Subject, false)
+			continue
+		}
+		c.reset()
+		var e VMinimaExec
+		for _, lm := range c.minimaList {
+			e.Minima = append(e.Minima, lm.Vertex.pt)
+		}
+		e.Scan = append([]int64{}, c.scanlineList...)
+		for {
+			y, ok := c.popScanline()
+			if !ok {
+				break
+			}
+			for c.hasLocMinAtY(y) {
+				e.Visited = append(e.Visited, c.popLocalMinima().Vertex.pt)
+			}
+		}
+		c.clearSolutionOnly()
+		execs = append(execs, e)
+	}
+	return execs
+}
